@@ -184,6 +184,21 @@ CLAIMED.update({
         design_ref='DESIGN.md §6 C20'),
 })
 
+CLAIMED.update({
+    'C16': dict(
+        text='Lean 4 model: the element-type field resolves through a finite table GENERATED by running dtype_from_name on every '
+             'public numpy name and the builtins (the translator refuses a source whose readers call eval/exec or bypass the '
+             'lookup); theorems: any string is either one of the table entries or a ValueError, side-effect expressions are '
+             'rejected, loading only reads files present under the directory, names taken from file content are single path '
+             'components, every move of the upgrade plan stays in its feature folder. Tied by running the real loader / '
+             'upgrader under sys.addaudithook on directories with one crafted field (canary payloads): opened files and '
+             'write/remove/move effects compared with the model.',
+        note=COMMON_NOTE + 'PARTIAL: that the interpreter evaluates nothing else is observed through audit events (compile, exec, '
+             'import, os.system, Popen, socket, open-for-write ...), not proved; stat probes are not counted as effects.',
+        technique='Lean 4 proof on a generated finite table and the upgrade plan + audit-hook effect-trace correspondence',
+        design_ref='DESIGN.md §6 C16'),
+})
+
 NOT_YET = {
 }
 
